@@ -379,7 +379,7 @@ class Inotify:
                 if inotify_event.is_ignored:
                     # Clean up book-keeping for deleted watches.
                     path = self._path_for_wd.pop(wd)
-                    if self._wd_for_path[path] == wd:
+                    if self._wd_for_path.get(path) == wd:
                         del self._wd_for_path[path]
 
                 event_list.append(inotify_event)
